@@ -101,10 +101,26 @@ Theorem format_name_history_independent_partial : forall cap fmt cos c names n f
 Proof. exact format_name_history_independent_lemma. Qed.
 Print Assumptions format_name_history_independent_partial.
 
-(* and the caches of every reachable state are well formed (so eviction never raises there) *)
-Theorem caches_well_formed : forall cap fmt cos, 0 < cap -> quiet fmt ->
-  memos_ok cap fmt (final cap fmt G0 cos).
-Proof. intros cap fmt cos Hc Hq. exact (run_memos_ok cap fmt cos Hc Hq G0 (memos_ok_G0 cap fmt errs0)). Qed.
+(* the same for all the format.name$ calls of a whole BibTeX-engine run (stops at the first exception) *)
+Theorem bst_run_history_independent_partial : forall cap fmt cos c calls,
+  0 < cap -> quiet fmt ->
+  snd (step cap fmt (final cap fmt G0 cos) (c, OBstRun calls)) = snd (step cap fmt G0 (c, OBstRun calls)).
+Proof. exact bst_run_history_independent_lemma. Qed.
+Print Assumptions bst_run_history_independent_partial.
+
+(* with NO assumption on the name formatter: inside errors.capture() the VALUE of a format.name$
+   call after any history is its value in a fresh process -- F19 is about the reports (and about
+   strict mode, where the report is the exception) only *)
+Theorem format_name_value_independent_in_capture : forall cap fmt cos names n format, 0 < cap ->
+  o_val (snd (step cap fmt (final cap fmt G0 cos) (true, OFormatName names n format))) =
+  o_val (snd (step cap fmt G0 (true, OFormatName names n format))).
+Proof. exact format_name_value_in_capture_lemma. Qed.
+Print Assumptions format_name_value_independent_in_capture.
+
+(* and, for every name formatter, both caches of every reachable state are well formed (eviction
+   never raises there) and hold only values the un-memoised functions return *)
+Theorem caches_well_formed : forall cap fmt cos, 0 < cap -> caches_ok cap fmt (final cap fmt G0 cos).
+Proof. intros cap fmt cos Hc. exact (run_caches_ok cap fmt cos Hc G0 (caches_ok_G0 cap fmt)). Qed.
 Print Assumptions caches_well_formed.
 
 (* leaving errors.capture() restores normal reporting *)
@@ -132,6 +148,13 @@ Example accumulate_isolate_example :
              exists en, fst (fst d) = [([107%N], en)] /\ en_fields en = [([110%N], [86%N])]) /\
   o_val (snd (step 2 no_fmt (final 2 no_fmt G0 [(false, OParse None [ex_file1])]) (false, OParse None [ex_file2]))) = PyErr E_UNDEF (-1)%Z.
 Proof. vm_compute. split; [eexists; split; [reflexivity|eexists; split; reflexivity]|reflexivity]. Qed.
+
+(* the capture-mode value theorem on the F19 witness: same value, different reports *)
+Example f19_value_same_reports_differ :
+  let after := snd (step 1024 noisy_fmt (final 1024 noisy_fmt G0 [(true, probe_name)]) (true, probe_name)) in
+  let fresh := snd (step 1024 noisy_fmt G0 (true, probe_name)) in
+  o_val after = o_val fresh /\ o_val fresh = Ok (VStr [97%N]) /\ o_captured after = Some [] /\ o_captured fresh = Some [(E_NAME, [97%N])].
+Proof. vm_compute. auto. Qed.
 
 Example quiet_example : quiet no_fmt /\ ~ quiet noisy_fmt.
 Proof. split; [intros n f; reflexivity | intro H; specialize (H [] []); discriminate]. Qed.
